@@ -38,11 +38,12 @@ CLAIMED = {
          "Exploration.", "Uses the cfg(rsactor_verif) wait_for_snapshot hook."),
  "C16": ("sim-diff", "differential oracle: each scenario executed with direct references and again with every operation routed through randomly derived trait objects; canonical traces must be identical; all views of one actor agree on identity/is_alive",
          "Exploration (exact trace equality per scenario).", "As C01."),
- "C20": ("sim", "metrics samples at quiescent instants compared with handler-entry counts from the trace; monotonicity; avg<=max; max >= self-measured handler time; snapshot==accessors; post-mortem reads",
+ "C17": ("mt", "real-thread blocking-API monitor: std threads / spawn_blocking / runtime workers call blocking_tell/ask (with and without timeout, deprecated aliases, erased forwarders) against live, gated-full, dying and dead actors; the MT forms of the delivery/order/integrity/dead-letter oracles plus wall-clock deadline checks guarded by a heartbeat",
+         "Exploration on real threads; deadlines restated as bounded progress (timeout + 2 s) under a heartbeat guard; 'never early' is exact (monotonic clock).", "As C01; wall-clock bounds are evaluated only while the heartbeat shows the machine was not stalled (max lateness < 250 ms)."),
+ "C20": ("sim+mt", "metrics samples at quiescent instants compared with handler-entry counts from the trace; monotonicity; avg<=max; max >= self-measured handler time; snapshot==accessors; post-mortem reads",
          "Exploration.", "Requires the metrics feature build; wall-clock only used as a lower bound."),
 }
 NOT_YET = {
- "C17": "blocking-API real-thread monitor not implemented yet in this revision (planned: MT blocking profile)",
  "C18": "cross-feature differential runs not wired up yet in this revision (planned: DIFF across builds)",
  "C19": "generated macro corpus not implemented yet in this revision (planned: GEN)",
 }
